@@ -79,6 +79,7 @@ class _InMemoryConsumer(ConsumerT):
         if self.topics and msg.key.topic not in self.topics:  # topics don't match
             self._queue.simple.put_nowait(msg)
             return None
+        self._queue.origins[msg.key.id_] = (self.category, None)
         return msg
 
     def __consume_delayed(self) -> Message | None:
@@ -88,14 +89,19 @@ class _InMemoryConsumer(ConsumerT):
         soonest = min(self._queue.delayed)
 
         if len(self._queue.delayed[soonest]) == 1:
-            return self._queue.delayed.pop(soonest)[0]
-        return self._queue.delayed[soonest].pop(0)
+            msg = self._queue.delayed.pop(soonest)[0]
+        else:
+            msg = self._queue.delayed[soonest].pop(0)
+        self._queue.origins[msg.key.id_] = (self.category, soonest)
+        return msg
 
     def __consume_dead(self) -> Message | None:
         if not self._queue.dead:
             return None
 
-        return self._queue.dead.pop(0)
+        msg = self._queue.dead.pop(0)
+        self._queue.origins[msg.key.id_] = (self.category, None)
+        return msg
 
     async def consume(self) -> tuple[RoutingKeyT, str, ParametersT]:
         await asyncio.sleep(0)
